@@ -9,7 +9,8 @@ EXPLANATION = (
     "line-normalisation step of read_dimacs_from_file preserves the whole content of the line and removes only a "
     "trailing newline (K24); has_loops and has_non_positive_weights, extracted with the Boost.Graph edge range bound to "
     "edge ordinals, return true exactly when some edge is a self-loop / has weight <= 0 (loop contracts with a ghost "
-    "edge, unbounded in the number of edges).  BOUNDED stand-in for the rest (K25): the real reader is run through fmemopen on "
+    "edge, unbounded in the number of edges); has_multiple_edges answers true exactly when some vertex lists the same opposite endpoint at two "
+    "out-edge slots (loop contracts with invariants quantified over the bounded vertex / slot range, n<=5; std::set bound to a boolean table).  BOUNDED stand-in for the rest (K25): the real reader is run through fmemopen on "
     "every text of a grammar enumerator (declared vertices <=4, <=3/4 edge lines over endpoints incl. an "
     "undeclared vertex, e/a lines, omitted/integer/decimal/negative/zero weights, comments in every slot, with "
     "and without final newline) and compared field by field; the three predicates are compared with their "
